@@ -259,6 +259,9 @@ var c03RandomName = regexp.MustCompile(`[0-9a-f]{16}-[0-9a-f]{16}`)
 
 var c03InjCrash = true // crash enumeration of the injected cases (switched off by VERIF_C03_INJECT_CRASH=0)
 
+// c03InjCrashPass: second pass over the short vectors, with the crash recorder (see c03InjectedFamily)
+var c03InjCrashPass = false
+
 // c03RunInjected returns false if the reorganisation left the layout unchanged.
 // c03InjTemplate: the built input of one level vector (closed shard tree + its model), restored for every
 // (parquet level, reorganisation) of that vector instead of being written again.
@@ -354,17 +357,21 @@ func c03RunInjected(rep *kit.Report, scratch string, c c03Case, tmpl *c03InjTemp
 	}
 	layoutAfter := v.Layout()
 	if layoutAfter == layoutBefore {
-		rep.Count("inject_reorg_not_applicable", 1)
+		if !c03InjCrashPass {
+			rep.Count("inject_reorg_not_applicable", 1)
+		}
 		return false
 	}
-	rep.Count("cases", 1)
-	rep.Count("inject_cases", 1)
-	rep.Count("inject_cases_"+c.Reorg, 1)
+	if !c03InjCrashPass { // the crash pass repeats the complete run of a case of the first pass: counted once
+		rep.Count("cases", 1)
+		rep.Count("inject_cases", 1)
+		rep.Count("inject_cases_"+c.Reorg, 1)
+		rep.Eval(1)
+		rep.DistinctNontrivial(kit.Hash(c.key(), "complete"))
+	}
 	rep.Count("mutations", int64(rec.nMut))
 	rep.Count("torn_points", int64(rec.nTorn))
 	// (a) run to completion: same answers, same rows in the same order when the ordered files are walked in list order
-	rep.Eval(1)
-	rep.DistinctNontrivial(kit.Hash(c.key(), "complete"))
 	shapes := fmt.Sprintf("%s -> %s", vLayoutShape(layoutBefore), vLayoutShape(layoutAfter))
 	after, err := c03WalkShard(v)
 	if err != nil {
@@ -392,7 +399,7 @@ func c03RunInjected(rep *kit.Report, scratch string, c c03Case, tmpl *c03InjTemp
 		rep.Violation("reorg_changed_answer", c.key(), shapes+": "+strings.Join(diffs, "; "), c)
 		return true
 	}
-	rep.Sample(6, map[string]any{"levels": c.Levels, "parquet_level": c.Parquet, "reorg": c.Reorg, "from": vLayoutShape(layoutBefore),
+	rep.Sample(12, map[string]any{"levels": c.Levels, "parquet_level": c.Parquet, "reorg": c.Reorg, "from": vLayoutShape(layoutBefore),
 		"to": vLayoutShape(layoutAfter), "files_after": after.Files, "crash_images": len(rec.images)})
 	_ = v.Close()
 	if rec.err != nil {
@@ -429,18 +436,29 @@ func c03RunInjected(rep *kit.Report, scratch string, c c03Case, tmpl *c03InjTemp
 }
 
 // c03InjectedFamily enumerates every level vector up to the length bound x parquet level x reorganisation.
-func c03InjectedFamily(rep *kit.Report, scratch string, idx *int) {
+//
+// Two passes, so that a deadline on a loaded machine cuts the most expensive part last: pass "complete" runs every case
+// to completion without the recorder (cheap, all vectors); pass "crash" (called after the prefix-history family) runs the
+// cases of the vectors up to the crash length bound again under the recorder and explores every crash image.
+func c03InjectedFamily(rep *kit.Report, scratch string, idx *int, crashPass bool) {
 	maxLen, crashLen, depth2Len := 4, 3, 0
 	if kit.Thorough() {
-		maxLen, crashLen, depth2Len = 5, 5, 3
+		maxLen, crashLen, depth2Len = 5, 4, 2
 	}
 	if os.Getenv("VERIF_C03_INJECT_CRASH") == "0" {
 		crashLen = 0
 	}
+	c03InjCrashPass = crashPass
+	defer func() { c03InjCrashPass = false }()
+	if crashPass {
+		maxLen = crashLen
+	}
 	levelsAlphabet := []int{0, 1, 2}
 	parquet := []int{0, 1, 2}
-	rep.Note("injected level layouts: level vectors of length 1..%d over %v x parquet level %v x reorganisations %v (PF only with a parquet level > 0); crash images for length <= %d",
-		maxLen, levelsAlphabet, parquet, c03InjReorgs, crashLen)
+	if !crashPass {
+		rep.Note("injected level layouts: level vectors of length 1..%d over %v x parquet level %v x reorganisations %v (PF only with a parquet level > 0); crash images for length <= %d, of the recovery pass for length <= %d",
+			maxLen, levelsAlphabet, parquet, c03InjReorgs, crashLen, depth2Len)
+	}
 	for l := 1; l <= maxLen; l++ {
 		kit.Sequences(len(levelsAlphabet), l, func(seq []int) bool {
 			levels := make([]int, l)
@@ -477,9 +495,11 @@ func c03InjectedFamily(rep *kit.Report, scratch string, idx *int) {
 					if rep.Expired() {
 						return false
 					}
-					c := c03Case{Levels: append([]int(nil), levels...), Parquet: p, Reorg: r, Inject: true, Depth2: l <= depth2Len}
-					c03InjCrash = l <= crashLen
-					rep.Count("inject_cases_tried", 1)
+					c := c03Case{Levels: append([]int(nil), levels...), Parquet: p, Reorg: r, Inject: true, Depth2: crashPass && l <= depth2Len}
+					c03InjCrash = crashPass
+					if !crashPass {
+						rep.Count("inject_cases_tried", 1)
+					}
 					rep.RunConfirmed(func() { c03RunInjected(rep, scratch, c, tmpl) })
 				}
 			}
